@@ -18,6 +18,7 @@ import (
 	"math/big"
 	"os"
 	"path/filepath"
+	"time"
 
 	"github.com/elastos/Elastos.ELA/account"
 	"github.com/elastos/Elastos.ELA/crypto"
@@ -36,11 +37,15 @@ type faultySource struct {
 	chunk     int
 	failAfter int
 	given     int
+	delay     time.Duration // blocks this long before the first byte
 }
 
 var errSourceDown = errors.New("system random source unavailable (injected)")
 
 func (f *faultySource) Read(p []byte) (int, error) {
+	if f.delay > 0 && f.given == 0 {
+		time.Sleep(f.delay)
+	}
 	if f.failAfter >= 0 && f.given >= f.failAfter {
 		return 0, errSourceDown
 	}
@@ -277,6 +282,27 @@ func dynamicOracle(run *lib.Run, st *lib.Stats) {
 				st.Fail("source-error-ignored:"+e.name, "the system random source failed before 48 bytes were delivered, yet keystore creation succeeded", in)
 			}
 		}
+	}
+	// a slow source (blocks for a few seconds, then delivers): key generation must wait for it and
+	// produce exactly the key it produces from the same bytes delivered at once -- not a key from a
+	// fallback generator (timeout -> clock/pid-derived bytes)
+	ref := func(src *faultySource) (string, bool) {
+		var priv []byte
+		var err error
+		panicked, _ := withSource(src, func() { priv, _, err = crypto.GenerateKeyPair() })
+		if panicked || err != nil {
+			return "", false
+		}
+		return fmt.Sprintf("%x", priv), true
+	}
+	k0, ok0 := ref(&faultySource{failAfter: -1})
+	k1, ok1 := ref(&faultySource{failAfter: -1, chunk: 5})
+	slow := &faultySource{failAfter: -1, delay: 4 * time.Second}
+	k2, ok2 := ref(slow)
+	st.Count("fault:GenerateKeyPair:slow", true, "fault-injection:slow-source")
+	if !ok0 || (ok1 && k1 != k0) || (ok2 && k2 != k0) {
+		st.Fail("key-not-from-source:crypto.GenerateKeyPair", "the private key is not a function of the bytes the system random source delivered (a slow or chunked source gave a different key: fallback generator?)",
+			map[string]interface{}{"key_full_reads": k0, "key_5_bytes_per_read": k1, "key_source_blocking_4s": k2, "bytes_read_from_slow_source": slow.given})
 	}
 	os.RemoveAll(filepath.Join(run.Out, "ks"))
 }
